@@ -219,6 +219,9 @@ def gen_atomic_grids_cider(
     full_lmax=CIDER_DEFAULT_LMAX,
     **kwargs
 ):
+    if full_lmax < 1:
+        # the indexer needs the l=1 harmonics for the grid directions
+        raise ValueError("lmax must be at least 1")
     if atom_grid is None:
         atom_grid = {}
     if isinstance(atom_grid, (list, tuple)):
